@@ -41,9 +41,14 @@ def _outer_reduce(rec, clause):
             f"sys.exit(replay_outer_reduce_flatten({m.group(1)}, {m.group(2)}, {m.group(3)}, json.loads({json.dumps(json.dumps(model, default=str))})))\n")
 
 
+def _c18(rec, clause):
+    return f"import sys\nfrom native.replay_c18 import main\nsys.exit(main({rec['id']!r}))\n"
+
+
 GENERATORS = [
+    (re.compile(r"^C18\."), _c18),
     (re.compile(r"^C02\.opt\.outer_reduce_flatten"), _outer_reduce),
-    (re.compile(r"^C02\.fold_settings\."), _fold_settings),
+    (re.compile(r"^C0[26]\.fold_settings\."), _fold_settings),
     (re.compile(r"^C(03|04|05|07)\.rule\."), _rule),
     (re.compile(r"^C05\.Scope\.__iter__"), _scope_iter),
     (re.compile(r"^C(14|05)\.(sym|rule|kernel)\.(?!TensorParameter|ReferenceParameter|mixing_weight_factory|TorchMatMul|TorchFlatten)"), _param_node),
